@@ -184,8 +184,11 @@ def render_task(wf, t):
             if isinstance(c, list) else c
     if t.get('join') is not None:
         d['join'] = t['join']
-    if t.get('requires'):
-        d['requires'] = list(t['requires'])
+    # 'requires' holds the effective prerequisites (own + task-defaults);
+    # 'own_requires', when present, is what the task itself declares
+    own = t.get('own_requires', t.get('requires'))
+    if own:
+        d['requires'] = list(own)
     for key, yk in (('publish', 'publish'),
                     ('publish_on_error', 'publish-on-error'),
                     ('publish_on_skip', 'publish-on-skip')):
